@@ -427,6 +427,121 @@ theorem regionIndex_spec (A : List Bool) (reg : Arr Int) (r : Int) (hl : reg.len
       · simp [h2] at ha'
     · simp [h1] at ha
 
+/-! ## the loops as written equal the closed forms -/
+
+theorem rank_append_length (pre post : List Bool) : rank (pre ++ post) pre.length = nactive pre := by
+  induction pre with
+  | nil => cases post <;> simp [rank, nactive]
+  | cons b bs ih =>
+    cases b
+    · simp [rank, nactive] at ih ⊢; exact ih
+    · simp [rank, nactive] at ih ⊢; omega
+
+theorem isActive_append_length (pre : List Bool) (b : Bool) (post : List Bool) :
+    isActive (pre ++ b :: post) pre.length = b := by
+  simp [isActive]
+
+/-- the loop equals the closed form used in the model -/
+theorem regionIndexLoop_eq (region : Arr Int) (r : Int) (pre post : List Bool) :
+    regionIndexLoop region r post pre.length (nactive pre) =
+      ((List.range post.length).map (· + pre.length)).filterMap fun g =>
+        if isActive (pre ++ post) g then
+          let a := rank (pre ++ post) g
+          if (cellAt region a).v = r then some ⟨g, a, g⟩ else none
+        else none := by
+  induction post generalizing pre with
+  | nil => simp [regionIndexLoop]
+  | cons b bs ih =>
+    have h := ih (pre ++ [b])
+    simp only [List.length_append, List.length_cons, List.length_nil, List.append_assoc, List.cons_append,
+      List.nil_append] at h
+    rw [List.length_cons, List.range_succ_eq_map, List.map_cons, List.filterMap_cons, Nat.zero_add,
+      isActive_append_length, rank_append_length]
+    cases b
+    · simp only [regionIndexLoop]
+      have hn : nactive (pre ++ [false]) = nactive pre := by simp [nactive]
+      rw [hn] at h
+      rw [h]
+      simp only [Bool.false_eq_true, if_false, List.map_map]
+      congr 1
+      apply List.map_congr_left
+      intro x _
+      simp only [Function.comp]
+      omega
+    · simp only [regionIndexLoop]
+      have hn : nactive (pre ++ [true]) = nactive pre + 1 := by simp [nactive]
+      rw [hn] at h
+      rw [h]
+      simp only [if_true, List.map_map]
+      have e : (List.map ((fun x => x + pre.length) ∘ Nat.succ) (List.range bs.length)) =
+          (List.map (fun x => x + (pre.length + 1)) (List.range bs.length)) := by
+        apply List.map_congr_left
+        intro x _
+        simp only [Function.comp]
+        omega
+      rw [e]
+      split <;> simp
+
+theorem regionIndexLoop_spec (A : List Bool) (region : Arr Int) (r : Int) :
+    regionIndexLoop region r A 0 0 = regionIndex A region r := by
+  have := regionIndexLoop_eq region r [] A
+  simp only [List.length_nil, List.nil_append, Nat.add_zero, List.map_id'] at this
+  unfold regionIndex
+  exact this
+
+theorem compressLoop_inv {β : Type} (A : List Bool) (done junk rest : List β) (h : rest.length = A.length) :
+    compressLoop A (done.length + junk.length) junk.length (done ++ junk ++ rest) = done ++ compress A rest := by
+  induction A generalizing done junk rest with
+  | nil =>
+    cases rest with
+    | nil => simp [compressLoop, compress]
+    | cons x xs => simp at h
+  | cons a as ih =>
+    cases rest with
+    | nil => simp at h
+    | cons x xs =>
+      simp at h
+      cases a
+      · simp only [compressLoop, compress]
+        have := ih done (junk ++ [x]) xs h
+        simp only [List.length_append, List.length_cons, List.length_nil, List.append_assoc, List.cons_append,
+          List.nil_append] at this
+        rw [← this]
+        have e1 : done.length + junk.length + 1 = done.length + (junk.length + 1) := by omega
+        rw [e1]
+        simp only [Nat.zero_add, List.append_assoc]
+      · simp only [compressLoop, compress]
+        cases junk with
+        | nil =>
+          simp only [List.length_nil, Nat.lt_irrefl, if_false, List.append_nil, Nat.add_zero, gt_iff_lt]
+          have := ih (done ++ [x]) [] xs h
+          simp only [List.length_append, List.length_cons, List.length_nil, List.append_nil, List.append_assoc,
+            List.cons_append, List.nil_append, Nat.add_zero] at this
+          rw [this]
+        | cons j js =>
+          have hget : (done ++ (j :: js) ++ x :: xs)[done.length + (js.length + 1)]? = some x := by
+            rw [List.getElem?_append_right (by simp)]
+            simp
+          simp only [List.length_cons, gt_iff_lt, Nat.zero_lt_succ, if_true]
+          rw [hget]
+          simp only []
+          have hset : (done ++ (j :: js) ++ x :: xs).set (done.length + (js.length + 1) - (js.length + 1)) x =
+              (done ++ [x]) ++ (js ++ [x]) ++ xs := by
+            rw [Nat.add_sub_cancel]
+            simp [List.set_append]
+          rw [hset]
+          have := ih (done ++ [x]) (js ++ [x]) xs h
+          simp only [List.length_append, List.length_cons, List.length_nil] at this
+          have e1 : done.length + (js.length + 1) + 1 = done.length + 1 + (js.length + 1) := by omega
+          rw [e1, this]
+          simp
+
+/-- the in-place loop is the abstraction function -/
+theorem compressLoop_eq {β : Type} (A : List Bool) (x : List β) (h : x.length = A.length) :
+    compressLoop A 0 0 x = compress A x := by
+  have := compressLoop_inv A [] [] x h
+  simpa using this
+
 /-! ## stores, fresh arrays, validity: commutation with `compress` -/
 
 theorem sget_smap {β γ : Type} (f : β → γ) (s : List (String × β)) (k : String) :
